@@ -612,12 +612,15 @@ def san_classify(rep, item):
     """sanitizer kind + top repository frame + structural condition of the
     configuration that was running (from the worker's breadcrumb)."""
     mk = item.get('mark') if isinstance(item, dict) else None
-    if not mk:
+    if 'StratifiedSFCNNPS' in rep.get('key', '') and (
+            not mk or mk.get('cls') != SSFC):
         # a report without a breadcrumb (it surfaced while the worker was
-        # going down): StratifiedSFCNNPS is listed for any input, so its own
-        # frames identify the finding; everything else stays a new violation
-        if 'StratifiedSFCNNPS' in rep.get('key', ''):
-            return 'stratified-sfc:unreliable:any-input'
+        # going down), or attached to another class's work item (sanitizer
+        # logs are per process id, and ids are re-used within a long run):
+        # StratifiedSFCNNPS is listed for any input, so its own faulting
+        # frame identifies the finding; everything else stays a new violation
+        return 'stratified-sfc:unreliable:any-input'
+    if not mk:
         return None
     fam = family(mk['cls'])
     key = classify(mk['cls'], 'sanitizer', mk.get('facts', {}), None,
